@@ -429,7 +429,10 @@ fn variants(p: &Prepared, actor: &str, name: &str) -> Vec<Variant> {
         ("datacap", "Destroy") => v1(ser(&fil_actor_datacap::DestroyParams { owner: p.client, amount: TokenAmount::from_whole(1) })),
         ("datacap", "Name") | ("datacap", "Symbol") | ("datacap", "Granularity") | ("datacap", "TotalSupply") => none(),
         ("datacap", "Balance") => v1(ser(&p.client)),
-        ("datacap", "Transfer") => v1(ser(&frc46_token::token::types::TransferParams { to: VERIFIED_REGISTRY_ACTOR_ADDR, amount: TokenAmount::zero(), operator_data: RawBytes::default() })),
+        ("datacap", "Transfer") => vec![
+            Variant { tag: "to=governor", params: ser(&frc46_token::token::types::TransferParams { to: VERIFIED_REGISTRY_ACTOR_ADDR, amount: TokenAmount::zero(), operator_data: RawBytes::default() }), escrow_party: None, built: true },
+            Variant { tag: "to=stranger", params: ser(&frc46_token::token::types::TransferParams { to: stranger, amount: TokenAmount::zero(), operator_data: RawBytes::default() }), escrow_party: None, built: true },
+        ],
         ("datacap", "TransferFrom") => v1(ser(&frc46_token::token::types::TransferFromParams { from: p.client, to: VERIFIED_REGISTRY_ACTOR_ADDR, amount: TokenAmount::zero(), operator_data: RawBytes::default() })),
         ("datacap", "IncreaseAllowance") => v1(ser(&frc46_token::token::types::IncreaseAllowanceParams { operator: stranger, increase: TokenAmount::from_whole(1) })),
         ("datacap", "DecreaseAllowance") => v1(ser(&frc46_token::token::types::DecreaseAllowanceParams { operator: stranger, decrease: TokenAmount::from_whole(1) })),
@@ -463,7 +466,10 @@ fn variants(p: &Prepared, actor: &str, name: &str) -> Vec<Variant> {
         ("init", "Constructor") => v1(ser(&fil_actor_init::ConstructorParams { network_name: "c11".into() })),
         ("init", "Exec") => {
             let ctor = fil_actor_paych::ConstructorParams { from: stranger, to: p.client };
-            v1(ser(&fil_actor_init::ExecParams { code_cid: *PAYCH_ACTOR_CODE_ID, constructor_params: RawBytes::serialize(&ctor).unwrap() }))
+            vec![
+                Variant { tag: "code=paych", params: ser(&fil_actor_init::ExecParams { code_cid: *PAYCH_ACTOR_CODE_ID, constructor_params: RawBytes::serialize(&ctor).unwrap() }), escrow_party: None, built: true },
+                Variant { tag: "code=miner", params: ser(&fil_actor_init::ExecParams { code_cid: *fil_actors_runtime::test_utils::MINER_ACTOR_CODE_ID, constructor_params: RawBytes::default() }), escrow_party: None, built: true },
+            ]
         }
         ("init", "Exec4") => v1(ser(&fil_actor_init::Exec4Params {
             code_cid: *fil_actors_runtime::test_utils::EVM_ACTOR_CODE_ID,
@@ -726,6 +732,28 @@ fn fits(e: &Exp, o: &Obs, changed: bool, built: bool) -> Result<(), (&'static st
     }
 }
 
+/// Body guards of validate-any methods (the `guard` column of the spec), exercised on the cells whose
+/// parameters reach the guard.  `Some(true)`: the body authorises this caller class and the call must
+/// complete; `Some(false)`: the body must refuse it (any error, nothing changed); `None`: not judged.
+fn guard_expect(actor: &str, base: &str, tag: &str, class: &str, view: &CallerView) -> Option<bool> {
+    let eoa = matches!(view.code, Some("account") | Some("ethaccount") | Some("placeholder"));
+    match (actor, base) {
+        ("multisig", "Propose") => Some(matches!(class, "msig-signer" | "msig-signer2")),
+        // transaction 0 was proposed (hence already approved) by msig-signer
+        ("multisig", "Approve") => Some(class == "msig-signer2"),
+        ("multisig", "Cancel") => Some(class == "msig-signer"),
+        ("verifreg", "AddVerifiedClient") => Some(class == "verifier"),
+        ("miner", "ChangeBeneficiary") => Some(class == "miner-owner"),
+        ("market", "PublishStorageDeals") => {
+            if matches!(class, "miner-owner" | "miner-worker" | "miner-control") { None } else { Some(false) }
+        }
+        ("eam", "CreateExternal") => if !eoa { Some(false) } else if class == "account" { Some(true) } else { None },
+        ("init", "Exec") if tag == "code=miner" => if class == "power" { None } else { Some(false) },
+        ("datacap", "Transfer") if tag == "to=stranger" => if class == "verifreg" { None } else { Some(false) },
+        _ => None,
+    }
+}
+
 // ------------------------------------------------------------------ the matrix
 
 struct Cell {
@@ -766,7 +794,19 @@ pub fn run(cfg: &RunCfg) -> Report {
         }
     }
 
-    let p = prepare();
+    // a world that cannot be prepared (e.g. a constructor that no longer completes) is a finding, not a crash
+    let p = match std::panic::catch_unwind(prepare) {
+        Ok(p) => p,
+        Err(e) => {
+            let msg = e.downcast_ref::<String>().cloned().or_else(|| e.downcast_ref::<&str>().map(|s| s.to_string())).unwrap_or_else(|| "panic".into());
+            rep.violations.push(Violation {
+                kind: "world-preparation-failed".into(),
+                detail: msg.clone(),
+                replay: write_replay("C11", &format!("{}-prepare", cfg.seed), &[format!("property C11 seed {} seq 0", cfg.seed), "the matrix world (one instance of every actor type, created through the actors' own constructors) could not be prepared".into()], &[msg]),
+            });
+            return rep;
+        }
+    };
     rep.notes.extend(p.notes.iter().cloned());
     let mut lean = if cfg.use_lean { Some(LeanDriver::spawn("dispatch").expect("lean driver")) } else { None };
     if let Some(l) = lean.as_mut() {
@@ -857,6 +897,25 @@ pub fn run(cfg: &RunCfg) -> Report {
             }
         }
         if matches!(o, Obs::Ok | Obs::Rejected(_) | Obs::OtherErr) && c.method != 0 { validated_cells += 1; }
+        // body guards of validate-any methods
+        if matches!(e, Exp::Passes { .. }) && SPEC.iter().any(|r| r.actor == c.actor && r.num == c.method) {
+            let base = c.mname.strip_suffix("Exported").unwrap_or(&c.mname);
+            match guard_expect(c.actor, base, c.variant.tag, &c.class, &view) {
+                Some(true) => {
+                    rep.branch("guard-authorised");
+                    if o != Obs::Ok {
+                        rep.violations.push(Violation { kind: "body-guard-designated-refused".into(), detail: format!("the body refused a caller its guard authorises — {} [observed {} msg={:?}]", cell_desc, obs_s, r.message), replay: replay_of("guard") });
+                    }
+                }
+                Some(false) => {
+                    rep.branch("guard-refused");
+                    if o == Obs::Ok {
+                        rep.violations.push(Violation { kind: "body-guard-outsider-accepted".into(), detail: format!("a caller the body guard must refuse completed the call — {} [observed {}]", cell_desc, obs_s), replay: replay_of("guard") });
+                    }
+                }
+                None => {}
+            }
+        }
 
         // (2) correspondence: the Lean model's verdict for the same cell
         if let Some(l) = lean.as_mut() {
